@@ -87,6 +87,18 @@ Theorem C18_crop_self_idempotent : forall ids rows cols zones ys xs,
 Proof. exact crop_self_idempotent. Qed.
 Print Assumptions C18_crop_self_idempotent.
 
+(* ... and with a separate values raster (zones of the same number of rows): cropping the window of zones together
+   with the cropped values by the same ids finds the whole frame and returns the cropped values unchanged *)
+Theorem C18_crop_idempotent : forall ids rows cols zones values ys xs,
+  length zones = rows -> rect rows cols values -> length ys = rows -> length xs = cols ->
+  (exists y x, 0 <= y < Z.of_nat rows /\ 0 <= x < Z.of_nat cols /\ (In (cell zones y x) ids /\ cell zones y x <> XNaN)) ->
+  forall t b l r out ys' xs',
+    crop_model ids rows cols zones values ys xs = (t, b, l, r, out, ys', xs') ->
+    crop_model ids (Z.to_nat (b - t + 1)) (Z.to_nat (r - l + 1)) (slice2 t b l r zones) out ys' xs' =
+      (0, b - t, 0, r - l, out, ys', xs').
+Proof. exact crop_idempotent. Qed.
+Print Assumptions C18_crop_idempotent.
+
 (* outside the property's premise, recorded: when no cell is kept every scan runs to its last index *)
 Theorem C18_nothing_kept_bounds : forall (T : Type) (stop : T -> bool) (get : Z -> Z -> T) (rows cols : nat),
   (forall y x, ~ kept stop get rows cols y x) ->
